@@ -3,12 +3,12 @@ against the REAL runtime classes (type-stripped codegen-v2.ts) + property oracle
 import vcheck
 
 PID = "C12"
-MODULES = ["BeffVerif.Props.C12", "BeffVerif.Props.C12Nonempty"]
+MODULES = ["BeffVerif.Props.C12", "BeffVerif.Props.C12Nonempty", "BeffVerif.Props.C12Paths"]
 AUDIT = "BeffVerif/Audit/C12.lean"
 TAGS = ("c12.",)
 HYP = {"NoEmptyIntersection": "D30"}
 OPEN = [
-    "paths_resolve / received_is_value_at_path — stated in DESIGN.md, not yet proved; evaluated by the JS oracle on every rejected value",
+    "received_is_value_at_path (the value recorded in an error is the input value at the error's path; needs a semantics of path segments) — not proved; evaluated by the JS oracle on every rejected value. The structural half (every error path extends the inspected path) is report_paths_extend",
 ]
 RULE = ("same request stream as C03; for every rejected value the oracle checks 1 ≤ #errors ≤ 10, every (nested) path resolves in the input or names a "
         "missing property of an existing object, received equals the value found there (or the key itself for index-signature key errors), "
